@@ -28,9 +28,12 @@ for fn in F0.all_fns():
         if tm is not None:
             accessors.append([fn.name, fn.path, tm])
 adt_fields = {}
+adt_variants = {}
 for cfg in ("default", "nan_boxing", "gc_stress"):
     for k, v in facts.adt_field_table(facts.load(cfg)).items():
         adt_fields.setdefault(k, v)
+    for k, v in facts.adt_variant_table(facts.load(cfg)).items():
+        adt_variants.setdefault(k, v)
 S = facts.load("syn")
-json.dump({"repo_head": head, "fns": sorted(names), "sigs": sigs, "syn_fns": sorted(facts.syn_fn_keys(S)), "syn_sigs": facts.syn_fn_sigs(S), "accessors": accessors, "adt_fields": adt_fields, "syn_fields": facts.syn_field_table(S)}, open("/verif/lyverif/pinned_fns.json", "w"), indent=0)
+json.dump({"repo_head": head, "fns": sorted(names), "sigs": sigs, "syn_fns": sorted(facts.syn_fn_keys(S)), "syn_sigs": facts.syn_fn_sigs(S), "accessors": accessors, "adt_fields": adt_fields, "adt_variants": adt_variants, "syn_fields": facts.syn_field_table(S)}, open("/verif/lyverif/pinned_fns.json", "w"), indent=0)
 print("pinned", len(names), "functions at", head)
